@@ -214,6 +214,11 @@ fn silence_case(srv: &Srv, kind: &str) -> (Vec<(String, String)>, Value) {
                     if !write && copies > 17 {
                         viol.push(("e2-retransmits-too-often".into(), format!("{kind}: {copies} copies of DATA(1)")));
                     }
+                    // the acknowledged interval is 1 s: every second that passes must bring a retransmission (DATA(1) once
+                    // plus one copy per elapsed interval but the last)
+                    if !write && viol.is_empty() && (copies as f64) < took.floor() - 0.5 {
+                        viol.push(("e2-retransmits-too-rarely".into(), format!("{kind}: only {copies} copies of DATA(1) in {:.1} s although timeout=1 was acknowledged", took)));
+                    }
                     if write && srv.cfg.keep == false && std::path::Path::new(&format!("{}/{}", srv.recv_dir, name)).exists() && viol.is_empty() {
                         viol.push(("e2-partial-left".into(), format!("{kind}: the abandoned upload's file is still there (clean-on-error)")));
                     }
@@ -231,6 +236,120 @@ fn silence_case(srv: &Srv, kind: &str) -> (Vec<(String, String)>, Value) {
     }
     quiesce();
     (viol, info)
+}
+
+/// two transfers one after the other from the SAME client endpoint: the second one must end as cleanly as the first
+fn reuse_case(srv: &Srv) -> Vec<(String, String)> {
+    let mut viol = vec![];
+    let data = body();
+    let p = format!("{}/c07_file", srv.send_dir);
+    if !std::path::Path::new(&p).exists() {
+        std::fs::write(&p, &data).unwrap();
+    }
+    let mut c = Client::new(srv.addr);
+    for round in 1..=2 {
+        c.reset_for_reuse();
+        let r = download_on(&mut c, srv, b"c07_file", &[], None, 0);
+        if !r.completed || r.data != data {
+            viol.push(("e2-reuse-failed".into(), format!("download #{round} from the same client endpoint: completed={} error={:?} anomalies={:?}", r.completed, r.error, &r.anomalies[..r.anomalies.len().min(3)])));
+            break;
+        }
+        // after the final ACK the transfer is over: no thread left, nothing emitted any more
+        if wait_workers_gone(BACKSTOP).is_none() {
+            viol.push(("e2-reuse-not-ended".into(), format!("download #{round} from the same client endpoint: the transfer thread is still alive 3 s after the final ACK")));
+            c.to_peer_guarded(&rc::error(0, "end"));
+            quiesce();
+            break;
+        }
+        if let Some((b, _)) = c.recv_wait(Duration::from_millis(20)) {
+            viol.push(("e2-reuse-send-after-end".into(), format!("download #{round} from the same client endpoint: {} arrived after the final ACK", rc::describe(&b))));
+        }
+    }
+    viol
+}
+
+/// C04 through the real Server: with timeout=1 acknowledged, k < 6 consecutive losses of the same datagram are survived
+/// (the Server must hand the SAME interval to the socket and to the worker).
+fn consecutive_loss_case(srv: &Srv, upload: bool, k: usize) -> Vec<(String, String)> {
+    let mut viol = vec![];
+    let data = body();
+    let p = format!("{}/c07_file", srv.send_dir);
+    if !std::path::Path::new(&p).exists() {
+        std::fs::write(&p, &data).unwrap();
+    }
+    let mut c = Client::new(srv.addr);
+    let opts = vec![("timeout".to_string(), "1".to_string())];
+    let desc = format!("{} with timeout=1, the same datagram lost {k} times in a row", if upload { "upload" } else { "download" });
+    if !upload {
+        c.to_server(&rc::request(false, b"c07_file", &opts));
+        if !matches!(c.recv_wait(BACKSTOP).map(|(b, _)| rc::decode(&b)), Some(Ok(RPacket::Oack(_)))) {
+            return vec![("e2-no-oack".into(), format!("{desc}: no OACK"))];
+        }
+        c.to_peer(&rc::ack(0));
+        // DATA(1) and its first k-1 retransmissions are "lost" (we ignore them); the k-th retransmission is acknowledged
+        let mut seen = 0;
+        let mut got = vec![];
+        let t0 = Instant::now();
+        let mut expect = 1u16;
+        while t0.elapsed() < Duration::from_secs(k as u64 + 6) {
+            let Some((b, _)) = c.recv_wait(Duration::from_millis(200)) else {
+                if !workers_alive() {
+                    break;
+                }
+                continue;
+            };
+            if let Ok(RPacket::Data { block, data: d }) = rc::decode(&b) {
+                if block == 1 && expect == 1 {
+                    seen += 1;
+                    if seen <= k {
+                        continue; // lost
+                    }
+                }
+                if block == expect {
+                    got.extend_from_slice(&d);
+                    c.to_peer(&rc::ack(block));
+                    expect += 1;
+                    if d.len() < 512 {
+                        break;
+                    }
+                }
+            }
+        }
+        if got != data {
+            viol.push(("e2-loss-not-survived".into(), format!("{desc}: the download did not complete ({} of {} bytes; {} copies of DATA(1) seen)", got.len(), data.len(), seen)));
+        }
+    } else {
+        let name = format!("c04_loss_{}", std::process::id());
+        c.to_server(&rc::request(true, name.as_bytes(), &opts));
+        if !matches!(c.recv_wait(BACKSTOP).map(|(b, _)| rc::decode(&b)), Some(Ok(RPacket::Oack(_)))) {
+            return vec![("e2-no-oack".into(), format!("{desc}: no OACK"))];
+        }
+        // our DATA(1) is "lost" k times: the server sees k receive timeouts, then the block arrives
+        std::thread::sleep(Duration::from_millis(k as u64 * 1000 + 300));
+        let mut ok = true;
+        for (i, (a, b)) in [(0usize, 512usize), (512, 1024), (1024, 1100)].iter().enumerate() {
+            c.to_peer(&rc::data(i as u16 + 1, &data[*a..*b]));
+            match c.recv_wait(BACKSTOP).map(|(b, _)| rc::decode(&b)) {
+                Some(Ok(RPacket::Ack(x))) if x == i as u16 + 1 => {}
+                other => {
+                    ok = false;
+                    viol.push(("e2-loss-not-survived".into(), format!("{desc}: DATA({}) was answered with {:?}", i + 1, other.map(|r| r.map(|p| format!("{:?}", p).chars().take(40).collect::<String>())))));
+                    break;
+                }
+            }
+        }
+        quiesce();
+        let path = format!("{}/{}", srv.recv_dir, name);
+        if ok && std::fs::read(&path).ok().as_deref() != Some(&data[..]) {
+            viol.push(("e2-loss-not-survived".into(), format!("{desc}: the stored file differs")));
+        }
+        let _ = std::fs::remove_file(&path);
+    }
+    if workers_alive() {
+        c.to_peer_guarded(&rc::error(0, "end"));
+    }
+    quiesce();
+    viol
 }
 
 pub fn cell(spec: &Value) -> Value {
@@ -256,6 +375,27 @@ pub fn cell(spec: &Value) -> Value {
             }
             c.samples.push(json!({"srv": cfg.brief(), "family": "peer ERROR after k = 0..4 steps of a lock-step download, a windowed download and an upload"}));
         }
+        "loss" => {
+            let upload = spec["upload"].as_bool().unwrap();
+            let k = spec["k"].as_u64().unwrap() as usize;
+            let v = consecutive_loss_case(&srv, upload, k);
+            c.executions += 1;
+            c.states += 1;
+            c.transitions += k as u64 + 6;
+            c.nontrivial += 1;
+            c.trace_hashes.insert(fnv64(format!("loss{upload}{k}{}", cfg.single).as_bytes()));
+            c.samples.push(json!({"srv": cfg.brief(), "family": "consecutive losses through the real Server", "upload": upload, "k": k}));
+            all.extend(v);
+        }
+        "reuse" => {
+            let v = reuse_case(&srv);
+            c.executions += 1;
+            c.states += 1;
+            c.transitions += 8;
+            c.nontrivial += 1;
+            c.trace_hashes.insert(fnv64(format!("reuse{}", cfg.single).as_bytes()));
+            all.extend(v);
+        }
         kind => {
             let (v, info) = silence_case(&srv, kind);
             c.executions += 1;
@@ -268,8 +408,9 @@ pub fn cell(spec: &Value) -> Value {
             all.extend(v);
         }
     }
+    let prop = spec["property"].as_str().unwrap_or("C07").to_string();
     for (clause, what) in all {
-        c.violations.push(Violation { property: "C07".into(), clause, facts: facts(&[("single", json!(cfg.single))]), what: format!("[{}] {}", cfg.brief(), what), replay: json!({"engine": "c07_e2", "spec": spec}), weight: 300 });
+        c.violations.push(Violation { property: prop.clone(), clause, facts: facts(&[("single", json!(cfg.single))]), what: format!("[{}] {}", cfg.brief(), what), replay: json!({"engine": "c07_e2", "spec": spec}), weight: 300 });
     }
     if !quiesce() {
         c.machinery_errors.push("server not quiescent at the end of a C07 E2 cell".into());
@@ -288,7 +429,23 @@ pub fn cells(thorough: bool) -> Vec<Value> {
         v.push(json!({"srv": s.to_json(), "family": "giveup-upload"}));
         v.push(json!({"srv": s.to_json(), "family": "retransmit-default"}));
         v.push(json!({"srv": s.to_json(), "family": "error"}));
+        v.push(json!({"srv": s.to_json(), "family": "reuse"}));
         let _ = thorough;
+    }
+    v
+}
+
+pub fn loss_cells() -> Vec<Value> {
+    let mut v = vec![];
+    for single in [false, true] {
+        let mut s = SrvCfg::basic();
+        s.single = single;
+        s.overwrite = true;
+        for upload in [false, true] {
+            for k in [4usize, 2, 1] {
+                v.push(json!({"srv": s.to_json(), "family": "loss", "upload": upload, "k": k, "property": "C04"}));
+            }
+        }
     }
     v
 }
